@@ -667,7 +667,12 @@ func (s *Server) Invoke(responseWriter http.ResponseWriter, invoke *interop.Invo
 		go func() {
 			if initCompletionResp, err := s.awaitInitialized(); err != nil {
 				switch err {
-				case ErrInitResetReceived, ErrInitDoneFailed:
+				case ErrInitResetReceived:
+					// Init was interrupted by a reset (invoke timeout): the reset tears the
+					// sandbox down and answers this invocation. Starting a suppressed init and
+					// dispatching the invoke here would race with it and run for nobody.
+					return
+				case ErrInitDoneFailed:
 					// For init failures, cache the response so they can be checked later
 					// We check if they have not already been set by a call to /init/error by runtime
 					if s.getCachedInitErrorResponse() == nil {
